@@ -114,6 +114,10 @@ func ModifyNamespace(namespace *models.Namespace, cfg *models.CCConfig, cluster 
 
 	if err := storeConn.UpdateNamespace(namespace); err != nil {
 		log.Warn("update namespace failed, %s", string(namespace.Encode()))
+		// the write may have been applied although its reply was lost: restore the previous state
+		if err2 := rollbackNamespace(existNamespace, namespace, cfg, storeConn); err2 != nil {
+			return fmt.Errorf("update namespace error:%s, rollback error:%s", err, err2)
+		}
 		return err
 	}
 
@@ -121,7 +125,11 @@ func ModifyNamespace(namespace *models.Namespace, cfg *models.CCConfig, cluster 
 	proxies, err := storeConn.ListProxyMonitorMetrics()
 	if err != nil {
 		log.Warn("list proxies failed, %v", err)
-		return err
+		// the new configuration is already stored: do not leave it there when reporting failure
+		if err2 := rollbackNamespace(existNamespace, namespace, cfg, storeConn); err2 != nil {
+			return fmt.Errorf("list proxies error:%s, rollback error:%s", err, err2)
+		}
+		return fmt.Errorf("list proxies error:%s, rollback success", err)
 	}
 
 	wg := sync.WaitGroup{}
